@@ -5,3 +5,41 @@ try:
     from props.proto_rt import *
 except ImportError:
     pass
+
+def bounded_search(p):
+    """used only when the deductive side is undecided: line noise through both readers, their messages and both protocol classes - nothing may raise"""
+    import random, asyncio, logging
+    logging.disable(logging.CRITICAL)
+    from han import hdlc, dlde, meter_connection as mc
+    rnd = random.Random(p.get("seed", 0)); ev = 0; bad = []
+    alpha = [0x2F, 0x21, 0x0A, 0x0D, 0x7E, 0x7D, 0x80, 0xFF, 0x30, 0x41, 0x47, 0x00, 0x5E, 0x28, 0x29]
+    frames = [bytes.fromhex("a00801020110378c"), bytes.fromhex("a0070321133d94")]
+    for it in range(p.get("n", 600)):
+        parts = []
+        for _ in range(rnd.randrange(1, 9)):
+            c = rnd.random()
+            if c < 0.5: parts.append(bytes(rnd.choice(alpha) for _ in range(rnd.randrange(1, 7))))
+            elif c < 0.7: parts.append(b"\x7e" + rnd.choice(frames) + rnd.choice([b"\x7e", b"\x7d\x7e", b""]))
+            elif c < 0.85: parts.append(b"/ABC5\r\n" + bytes(rnd.choice(alpha) for _ in range(rnd.randrange(0, 9))) + rnd.choice([b"\r\n!\r\n", b"\n!zz\n", b"!\xff\n", b""]))
+            else: parts.append(bytes(rnd.randrange(256) for _ in range(rnd.randrange(1, 12))))
+        s = b"".join(parts); cuts = sorted(rnd.sample(range(len(s) + 1), min(len(s) + 1, rnd.randrange(0, 6)))); chunks = [s[a:b] for a, b in zip([0] + cuts, cuts + [len(s)])]
+        for mk in (lambda: hdlc.HdlcFrameReader(bool(it & 1), bool(it & 2)), lambda: dlde.ModeDReader()):
+            r = mk(); ev += 1
+            try:
+                for ch in chunks:
+                    for m in r.read(ch): (m.is_valid, m.payload, m.as_bytes, m.message_type)
+            except Exception as ex:
+                bad.append({"reader": type(r).__name__, "config": [bool(it & 1), bool(it & 2)], "chunks": [c.hex() for c in chunks][:8], "raised": repr(ex)}); break
+        if bad: break
+        loop = asyncio.new_event_loop(); asyncio.set_event_loop(loop)
+        try:
+            for cls in (mc.SmartMeterMessageProtocol, mc.SmartMeterMessagePayloadProtocol):
+                proto = cls(asyncio.Queue(), [hdlc.HdlcFrameReader(False, True), dlde.ModeDReader()]); ev += 1
+                try:
+                    for ch in chunks: proto.data_received(ch)
+                except Exception as ex:
+                    bad.append({"protocol": cls.__name__, "chunks": [c.hex() for c in chunks][:8], "raised": repr(ex)}); break
+        finally:
+            loop.close()
+        if bad: break
+    return {"name": "bounded search: line noise through the readers, their messages and the protocol classes", "bound": f"{p.get('n', 600)} generated noise streams x chunkings x 4 HDLC configurations / P1 / both protocol classes", "evaluations": ev, "distinct_nontrivial": ev, "violations": bad[:1]}
